@@ -102,7 +102,7 @@ package funnel
 //verif:requires BInv(batch) && slack(batch) == 0
 //verif:ensures[ack-coverage] err == nil ==> ackCount == len(positions)
 //verif:call[write-active] Destination.Write requires arg1 == result_of("(*Batch).ActiveRecords", 0)
-//verif:loop 1 invariant 0 <= ackCount && ackCount <= len(positions) && len(positions) == len(records)
+//verif:loop 1 invariant 0 <= ackCount && ackCount <= len(positions) && len(positions) == len(records) && BInv(batch) && len(positions) <= active(batch)
 
 // ---- Batch operations used by the ack path ------------------------------------
 
@@ -441,3 +441,17 @@ package funnel
 //verif:func (*splitRun).nackBatch(r) (b)
 //verif:modifies nothing
 //verif:ensures[the-original-record] fresh(b) && len(b.records) == 1 && len(b.positions) == 1 && len(b.recordStatuses) == 1 && b.positions[0] == r.origPos && b.recordStatuses[0].Flag == RecordFlagNack && b.recordStatuses[0].Error == r.nackErr && b.filterCount == 0 && isnil(b.runs) && b.tainted
+
+// ---- C08 / C09: destination acks are marked end -> start, inside the active records --
+//verif:func (*DestinationTask).markBatchRecords(t, b, from, acks)
+//verif:requires BInv(b) && 0 <= from && from + len(acks) <= active(b)
+//verif:ensures[shape] BInv(b) && len(b.records) == old(len(b.records)) && active(b) >= old(active(b))
+//verif:call[nack-the-record-the-ack-belongs-to] (*Batch).Nack requires arg1 == from + i && len(arg2) == 1 && arg2[0] == acks[i].Error && acks[i].Error != nil
+//verif:loop 0 invariant 0 - 1 <= i && i < len(acks) && BInv(b) && len(b.records) == old(len(b.records)) && active(b) >= old(active(b))
+
+// C09: the latency per record is a division by the number of records: never zero.
+//verif:iface ProcessorMetrics.Observe(recv, recordsNum, start)
+//verif:requires recordsNum > 0
+//verif:modifies nothing
+//verif:func (ProcessorMetricsImpl).Observe(m, recordsNum, start)
+//verif:requires recordsNum > 0
